@@ -34,6 +34,20 @@ Definition same_dp (hist fresh : list msg) : bool := bool_decide (dp_of hist = d
 Definition world_of (sets : list (N * list N)) (kvs : list (cell * value)) : world :=
   {| w_sets := list_to_map (map (λ p, (p.1, list_to_set p.2)) sets); w_kv := list_to_map kvs |}.
 
+(* Two facts about the flushed dataplane of ANY run (they are part of what "the state a fresh Felix emits" means and
+   catch an object leaked by history and fresh run alike):
+   - an IP set exists exactly when some active policy / profile uses it (RuleScanner: active IP sets = those
+     referenced by the rules of active policies and profiles);
+   - a profile is active exactly when some local endpoint lists it (ActiveRulesCalculator). *)
+Definition refs_of_kind (K R : kind) (w : world) : gset N :=
+  list_to_set (map_to_list (w_kv w) ≫= λ cv,
+    if decide (cv.1.1 = K) then omap (λ r : cell, if decide (r.1 = R) then Some r.2 else None) (v_refs cv.2) else []).
+Definition cells_of_kind (K : kind) (w : world) : gset N :=
+  list_to_set (omap (λ cv : cell * value, if decide (cv.1.1 = K) then Some cv.1.2 else None) (map_to_list (w_kv w))).
+Definition exact_refs (w : world) : bool :=
+  bool_decide (dom (w_sets w) = refs_of_kind KPol KIPSet w ∪ refs_of_kind KProf KIPSet w)
+  && bool_decide (cells_of_kind KProf w = refs_of_kind KEp KProf w).
+
 Record case := mkCase {
   c_hist : list msg;      (* everything the history run emitted *)
   c_fresh : list msg;     (* fresh Felix, final state fed in canonical key order *)
@@ -48,7 +62,9 @@ Definition ok_case (c : case) : bool :=
   && same_dp (c_hist c) (c_fresh c)                 (* C01: history-independence *)
   && same_dp (c_fresh2 c) (c_fresh c)               (* ... and independence of the order of the initial snapshot *)
   && ok_msgs world0 (c_hist c)                      (* C02's stream property on the WHOLE graph: every message *)
-  && ok_msgs world0 (c_fresh c).                    (*   well-formed, dataplane reference-closed after each *)
+  && ok_msgs world0 (c_fresh c)                     (*   well-formed, dataplane reference-closed after each *)
+  && exact_refs (dp_of (c_hist c))                  (* nothing leaked: IP sets / profiles exist exactly when used *)
+  && exact_refs (dp_of (c_fresh c)).
 
 (* (the Go driver's fold of the streams = the Coq fold, the specification accepts the implementation) *)
 Definition check_case (c : case) : bool * bool :=
